@@ -79,41 +79,13 @@ ASSUME /\ WL \in Queues /\ Target[WL] = ROOT /\ Width[WL] = 1 /\ DEFQ \in Bucket
        /\ \A i \in Items : On[i] = WL => Kind[i] \in {"ra", "aw"}
 
 DQ(q) == INSTANCE DQState WITH W <- Width[q], BASE <- (q = WL), QW <- QosOf[q]
-DW == INSTANCE DQState WITH W <- 1, BASE <- TRUE, QW <- 0        \* the workloop's word
+DW == INSTANCE WorkloopState WITH W <- 1, BASE <- TRUE, QW <- 0   \* the workloop's word: DQState + the workloop's own RMW loops
 NULL == DW!NULL
 Idle0 == DW!Idle0
 Owned0 == DW!Owned0
 Suspended(s) == DW!Suspended(s)
 
-(* ---------------- dq_state operators specific to the workloop (role BASE_ANON branches) ---------------- *)
-\* _dispatch_workloop_wakeup: new = merge_qos(old, qos); if (max_qos(new)) new |= ENQUEUED;
-\*                            if (MAKE_DIRTY) new |= DIRTY; else if (new == old) give up
-WlWakeup(s, q, mk) ==
-    LET a == DW!MergeQos(s, q)
-        b == IF a.qos # 0 THEN [a EXCEPT !.enq = TRUE] ELSE a
-        n == IF mk THEN [b EXCEPT !.dirty = TRUE] ELSE b IN
-    [changed |-> (mk \/ n # s), s |-> n, push |-> (n.enq /\ ~s.enq)]
-\* _dispatch_workloop_push_waiter (the waiter made its bucket non-empty): merge_qos, DIRTY; drain locked: nothing more;
-\* ENQUEUED: "let the event thread redrive"; else take the lock as _dispatch_queue_drain_try_lock does, IN_BARRIER
-WlPushWaiter(s, self, q, ignoreLock) ==
-    LET a == [DW!MergeQos(s, q) EXCEPT !.dirty = TRUE] IN
-    IF DW!Locked(s) /\ ~ignoreLock THEN [s |-> a, took |-> FALSE]
-    ELSE IF s.enq THEN [s |-> a, took |-> FALSE]
-    ELSE [s |-> [DW!Preserved(a) EXCEPT !.owner = self, !.used = 1, !.ib = TRUE], took |-> ~s.ib]
-\* _dispatch_workloop_barrier_complete rmw: merge_qos, - IN_BARRIER - WIDTH_INTERVAL, clear the unlock mask;
-\* target: |= ENQUEUED ; else DIRTY: give up, xor DIRTY, scan again ; else clear MAX_QOS
-WlBarrierComplete(s, q, target) ==
-    LET n == DW!ClearUnlock([DW!MergeQos(s, q) EXCEPT !.ib = FALSE, !.used = @ - 1]) IN
-    IF target THEN [ok |-> TRUE, s |-> [n EXCEPT !.enq = TRUE]]
-    ELSE IF s.dirty THEN [ok |-> FALSE, s |-> [s EXCEPT !.dirty = FALSE]]
-    ELSE [ok |-> TRUE, s |-> [n EXCEPT !.qos = 0]]
-\* _dispatch_workloop_try_lower_max_qos(dwl, qos): max_qos <= qos: give up (true) ; DIRTY: give up, xor DIRTY (false) ;
-\* else max_qos = qos (true)
-WlTryLower(s, q) ==
-    IF s.qos <= q THEN [kind |-> "keep", s |-> s]
-    ELSE IF s.dirty THEN [kind |-> "dirty", s |-> [s EXCEPT !.dirty = FALSE]]
-    ELSE [kind |-> "set", s |-> [s EXCEPT !.qos = q]]
-
+\* the workloop-specific RMW loops (WlWakeup, WlPushWaiter, WlBarrierComplete, WlTryLower) are defined in WorkloopState.tla
 Threads == Clients \cup Workers
 Objs == Items \cup Queues
 
@@ -208,8 +180,12 @@ Start(c) ==
               /\ Call(c, T(c), [F0 EXCEPT !.q = WL, !.ret = "ret"], "wla_and")
               /\ pred' = pred
     /\ UNCHANGED <<st, QV, root, ip, ev, FL, RUN, ref, G>>
-Return(c) == /\ pc[c] = "ret" /\ Go(c, "idle") /\ ip' = [ip EXCEPT ![c] = @ + 1]
-             /\ activated' = (activated \/ Prog[c][ip[c]].op = "wlact")
+\* "ret_act": return of the dispatch_activate call that cleared INACTIVE (the workloop is usable from then on).  A racing
+\* second dispatch_activate returns as soon as it sees INACTIVE clear, possibly BEFORE the first one cleared NEEDS_ACTIVATION:
+\* submitting after that early return crashes in _dispatch_workloop_wakeup (observation Mut = "obs_any_activate_returns",
+\* outside C03: not judged)
+Return(c) == /\ pc[c] \in {"ret", "ret_act"} /\ Go(c, "idle") /\ ip' = [ip EXCEPT ![c] = @ + 1]
+             /\ activated' = (activated \/ pc[c] = "ret_act" \/ (Mut = "obs_any_activate_returns" /\ Prog[c][ip[c]].op = "wlact"))
              /\ UNCHANGED <<st, QV, root, fr, ev, FL, RUN, ref, pred, drained, afn>>
 
 (* ============ _dispatch_lane_concurrent_push: fast path for non-barrier non-waiters ============ *)
@@ -292,7 +268,7 @@ WlPrev(t) ==
 \* frame: q = WL, qos, mkdirty (fl2 = CONSUME_2 always).  Suspended old state: DISPATCH_CLIENT_CRASH "Waking up an inactive workloop"
 WlWkRmw(t) ==
     /\ pc[t] = "wlwk_rmw"
-    /\ LET f == T(t)  r == WlWakeup(st[WL], f.qos, f.mkdirty) IN
+    /\ LET f == T(t)  r == DW!WlWakeup(st[WL], f.qos, f.mkdirty) IN
        IF ~r.changed THEN st' = st /\ Go(t, "wk_release") /\ UNCHANGED <<root, fr>>
        ELSE /\ st' = [st EXCEPT ![WL] = r.s]
             /\ IF Suspended(st[WL]) THEN Go(t, "crash") /\ UNCHANGED <<root, fr>>
@@ -316,7 +292,7 @@ WlwPrev(t) ==
 \* if ((old ^ new) & IN_BARRIER) return _dispatch_workloop_barrier_complete(dwl, qos, 0)
 WlwRmw(t) ==
     /\ pc[t] = "wlw_rmw"
-    /\ LET f == T(t)  r == WlPushWaiter(st[WL], Self(t), f.b, Mut = "waiter_ignores_lock") IN
+    /\ LET f == T(t)  r == DW!WlPushWaiter(st[WL], Self(t), f.b, Mut = "waiter_ignores_lock") IN
        /\ st' = [st EXCEPT ![WL] = r.s]
        /\ IF r.took THEN SetF(t, WlBcFrame(f, f.b, FALSE)) /\ Go(t, "wlbc_scan") ELSE Ret(t)
     /\ UNCHANGED <<QV, root, ip, ev, FL, RUN, ref, pred, G>>
@@ -529,7 +505,7 @@ WlIScan(w) ==
 \* if (!_dispatch_workloop_try_lower_max_qos(dwl, qos)) continue;  dwl->dwl_drained_qos = qos
 WlILower(w) ==
     /\ pc[w] = "wli_lower"
-    /\ LET f == T(w)  r == WlTryLower(st[WL], f.b) IN
+    /\ LET f == T(w)  r == DW!WlTryLower(st[WL], f.b) IN
        /\ st' = [st EXCEPT ![WL] = r.s]
        /\ IF r.kind = "dirty" THEN SetL(w, "b", TopB) /\ Go(w, "wli_scan") /\ drained' = drained
           ELSE fr' = fr /\ Go(w, "wli_head") /\ drained' = f.b
@@ -643,9 +619,7 @@ BsTail(c) == /\ pc[c] = "bs_tail" /\ Go(c, IF T(c).lvl # WL /\ tail[T(c).lvl] # 
              /\ UNCHANGED <<st, QV, root, fr, ip, ev, FL, RUN, ref, pred, G>>
 BsFast(c) == /\ pc[c] = "bs_fast"
              /\ LET f == T(c)  l == f.lvl  r == DQ(l)!TryAcquireBarrierSync(st[l], Self(c), 0) IN
-                IF r.ok /\ ~(Mut = "recurse_skips_workloop" /\ l = WL) THEN st' = [st EXCEPT ![l] = r.s] /\ Acquired(c, f)
-                ELSE IF Mut = "recurse_skips_workloop" /\ l = WL THEN st' = st /\ SetF(c, [f EXCEPT !.lvl = Target[On[f.item]]]) /\ Go(c, "sync_call")
-                ELSE st' = st /\ fr' = fr /\ Go(c, "sync_slow")
+                IF r.ok THEN st' = [st EXCEPT ![l] = r.s] /\ Acquired(c, f) ELSE st' = st /\ fr' = fr /\ Go(c, "sync_slow")
              /\ UNCHANGED <<QV, root, ip, ev, FL, RUN, ref, pred, G>>
 RsTail(c) == /\ pc[c] = "rs_tail" /\ Go(c, IF tail[T(c).lvl] # NULL THEN "sync_slow" ELSE "rs_fast")
              /\ UNCHANGED <<st, QV, root, fr, ip, ev, FL, RUN, ref, pred, G>>
@@ -766,7 +740,7 @@ WlBcHead(t) ==
 \* _dispatch_queue_push_queue(do_targetq, dwl, new_state) (keeps the +2) ; else release the +2 if CONSUME_2
 WlBcRmw(t) ==
     /\ pc[t] = "wlbc_rmw"
-    /\ LET f == T(t)  r == WlBarrierComplete(st[WL], f.qos, f.tf) IN
+    /\ LET f == T(t)  r == DW!WlBarrierComplete(st[WL], f.qos, f.tf) IN
        /\ st' = [st EXCEPT ![WL] = r.s]
        /\ IF ~r.ok THEN SetF(t, [f EXCEPT !.b = TopB, !.tf = FALSE]) /\ Go(t, "wlbc_scan") /\ UNCHANGED <<root, ref>>
           ELSE IF f.tf /\ r.s.enq /\ ~st[WL].enq THEN ref' = ref /\ TailPush(t, f, ROOT, WL, r.s.qos)
@@ -816,7 +790,7 @@ DnbAgain(t) == /\ pc[t] = "dnb_again"
 \* ~NEEDS_ACTIVATION); _dispatch_workloop_wakeup(dwl, 0, CONSUME_2) (the +2 taken by _dispatch_queue_init) }
 WlaAnd(c) == /\ pc[c] = "wla_and"
              /\ st' = [st EXCEPT ![WL].inact = FALSE]
-             /\ IF st[WL].inact THEN Go(c, "wla_na") /\ fr' = fr ELSE Ret(c)
+             /\ IF st[WL].inact THEN Go(c, "wla_na") /\ SetL(c, "ret", "ret_act") ELSE Ret(c)
              /\ UNCHANGED <<QV, root, ip, ev, FL, RUN, ref, pred, G>>
 WlaNa(c) == /\ pc[c] = "wla_na"
             /\ st' = [st EXCEPT ![WL].na = FALSE]
